@@ -12,12 +12,15 @@ import (
 	"github.com/attestantio/go-eth2-client/api"
 	apiv1 "github.com/attestantio/go-eth2-client/api/v1"
 	"github.com/attestantio/go-eth2-client/spec"
+	"github.com/attestantio/go-eth2-client/spec/altair"
+	"github.com/attestantio/go-eth2-client/spec/bellatrix"
 	"github.com/attestantio/go-eth2-client/spec/phase0"
 	standardcache "github.com/attestantio/vouch/services/cache/standard"
 	nullmetrics "github.com/attestantio/vouch/services/metrics/null"
 	"github.com/attestantio/vouch/services/scheduler/advanced"
 	"github.com/attestantio/vouch/verifmc/mc"
 	"github.com/attestantio/vouch/verifmc/mcontext"
+	"github.com/prysmaticlabs/go-bitfield"
 	"github.com/rs/zerolog"
 )
 
@@ -34,6 +37,26 @@ type c18Headers struct {
 	slots   map[phase0.Root]phase0.Slot
 	parents map[phase0.Root]phase0.Root // parent of each block (several slots older: slots were missed in between)
 	calls   int
+	// heads: what "head" resolves to on successive requests (the chain moves on while vouch starts)
+	heads    []phase0.Root
+	headReqs int
+}
+
+func (h *c18Headers) resolve(id string) (phase0.Root, bool) {
+	if id == "head" {
+		r := h.heads[len(h.heads)-1]
+		if h.headReqs < len(h.heads) {
+			r = h.heads[h.headReqs]
+		}
+		h.headReqs++
+		return r, true
+	}
+	for r := range h.slots {
+		if r.String() == id {
+			return r, true
+		}
+	}
+	return phase0.Root{}, false
 }
 
 func (h *c18Headers) BeaconBlockHeader(_ context.Context, opts *api.BeaconBlockHeaderOpts) (*api.Response[*apiv1.BeaconBlockHeader], error) {
@@ -41,18 +64,24 @@ func (h *c18Headers) BeaconBlockHeader(_ context.Context, opts *api.BeaconBlockH
 	if h.fail {
 		return nil, errors.New("scripted failure")
 	}
-	for r, s := range h.slots {
-		if r.String() == opts.Block {
-			return &api.Response[*apiv1.BeaconBlockHeader]{Data: &apiv1.BeaconBlockHeader{Root: r, Header: &phase0.SignedBeaconBlockHeader{Message: &phase0.BeaconBlockHeader{Slot: s, ParentRoot: h.parents[r]}}}, Metadata: map[string]any{}}, nil
-		}
+	if r, ok := h.resolve(opts.Block); ok {
+		return &api.Response[*apiv1.BeaconBlockHeader]{Data: &apiv1.BeaconBlockHeader{Root: r, Header: &phase0.SignedBeaconBlockHeader{Message: &phase0.BeaconBlockHeader{Slot: h.slots[r], ParentRoot: h.parents[r]}}}, Metadata: map[string]any{}}, nil
 	}
 	return nil, errors.New("unknown block")
 }
 
-type c18Blocks struct{}
+// c18Blocks serves the blocks of the same chain (the cache fetches the head block at start and on head events).
+type c18Blocks struct{ h *c18Headers }
 
-func (c18Blocks) SignedBeaconBlock(_ context.Context, _ *api.SignedBeaconBlockOpts) (*api.Response[*spec.VersionedSignedBeaconBlock], error) {
-	return nil, errors.New("no block")
+func (b c18Blocks) SignedBeaconBlock(_ context.Context, opts *api.SignedBeaconBlockOpts) (*api.Response[*spec.VersionedSignedBeaconBlock], error) {
+	r, ok := b.h.resolve(opts.Block)
+	if !ok {
+		return nil, errors.New("no block")
+	}
+	blk := &bellatrix.SignedBeaconBlock{Message: &bellatrix.BeaconBlock{Slot: b.h.slots[r], ParentRoot: b.h.parents[r], StateRoot: root(0x55),
+		Body: &bellatrix.BeaconBlockBody{ETH1Data: &phase0.ETH1Data{BlockHash: make([]byte, 32)}, SyncAggregate: &altair.SyncAggregate{SyncCommitteeBits: bitfield.NewBitvector512()},
+			ExecutionPayload: &bellatrix.ExecutionPayload{StateRoot: [32]byte{1}, BlockNumber: uint64(b.h.slots[r]), BlockHash: phase0.Hash32{byte(b.h.slots[r])}, ExtraData: []byte{}}}}}
+	return &api.Response[*spec.VersionedSignedBeaconBlock]{Data: &spec.VersionedSignedBeaconBlock{Version: spec.DataVersionBellatrix, Bellatrix: blk}, Metadata: map[string]any{}}, nil
 }
 
 type c18State struct {
@@ -79,7 +108,7 @@ func c18Units(tier string) []hx.Unit {
 	// slots older
 	trueSlot := map[phase0.Root]phase0.Slot{roots[0]: 3 * slotsPerEpoch, roots[1]: 4 * slotsPerEpoch, roots[2]: 66 * slotsPerEpoch}
 	parents := map[phase0.Root]phase0.Root{roots[1]: roots[0], roots[2]: roots[1], roots[0]: root(9)}
-	nOps := 3*len(roots) + 1
+	nOps := 4*len(roots) + 1
 	var units []hx.Unit
 	for first := 0; first < nOps; first++ {
 		first := first
@@ -92,7 +121,10 @@ func c18Units(tier string) []hx.Unit {
 			sched, err := advanced.New(ctx, advanced.WithLogLevel(zerolog.Disabled), advanced.WithMonitor(&nullmetrics.Service{}))
 			must(err)
 			ct := newChainTime(genesisOff, slotDur, slotsPerEpoch)
-			hp := &c18Headers{slots: trueSlot, parents: parents}
+			// while vouch starts the chain moves on: the first request for "head" sees block 2, later ones block 3
+			hp := &c18Headers{slots: trueSlot, parents: parents, heads: []phase0.Root{roots[1], roots[2]}}
+			// roots whose slot vouch may already know without a lookup (it has fetched their block)
+			mayKnow := map[phase0.Root]bool{roots[1]: true, roots[2]: true}
 			ev := &eventsProvider{}
 			svc, err := standardcache.New(ctx,
 				standardcache.WithLogLevel(zerolog.Disabled),
@@ -100,7 +132,7 @@ func c18Units(tier string) []hx.Unit {
 				standardcache.WithChainTime(ct),
 				standardcache.WithScheduler(sched),
 				standardcache.WithEventsProvider(ev),
-				standardcache.WithSignedBeaconBlockProvider(c18Blocks{}),
+				standardcache.WithSignedBeaconBlockProvider(c18Blocks{hp}),
 				standardcache.WithBeaconBlockHeadersProvider(hp),
 			)
 			must(err)
@@ -164,6 +196,8 @@ func c18Units(tier string) []hx.Unit {
 						bad("hit-wrong-slot", "cached lookup returned slot %d, the block's slot is %d", slot, trueSlot[r])
 					case cached && hp.calls != before:
 						// not required by the statement; informational only
+					case !cached && hp.fail && err == nil && mayKnow[r] && slot == trueSlot[r]:
+						// vouch had fetched this very block before (at start or on a head event); knowing its slot is fine
 					case !cached && hp.fail && err == nil:
 						bad("failed-fetch-reported-as-slot", "failed fetch reported as slot %d instead of an error", slot)
 					case !cached && !hp.fail && err != nil:
@@ -175,6 +209,11 @@ func c18Units(tier string) []hx.Unit {
 						ref[r] = trueSlot[r]
 					}
 					hp.fail = false
+				case 3:
+					// a head event for the block: the cache fetches the block (for the execution chain head)
+					st.log = append(st.log, fmt.Sprintf("head(r%d)", op%len(roots)))
+					ev.deliver("head", &apiv1.HeadEvent{Slot: trueSlot[r], Block: r})
+					mayKnow[r] = true
 				}
 			}
 		}
@@ -198,7 +237,7 @@ func init() {
 	hx.Register(&hx.Prop{
 		ID:    "C18",
 		Title: "A block root always maps to that block's slot",
-		Rule: "all operation sequences up to the depth bound (quick 4, thorough 6) over {block event, lookup with working provider, lookup with failing provider} x 3 roots, each the parent of the next with missed slots in between (slots exactly on the retention boundary of the first and of the second clean run, and far inside the window) and {clean run}, on the real cache service with the real scheduler and chain time on a virtual clock; compared with a reference map after every step; " +
+		Rule: "all operation sequences up to the depth bound (quick 4, thorough 6) over {block event, head event, lookup with working provider, lookup with failing provider} x 3 roots, each the parent of the next with missed slots in between (slots exactly on the retention boundary of the first and of the second clean run, and far inside the window) and {clean run}, on the real cache service (started while the chain head moves from the second to the third block between requests) with the real scheduler and chain time on a virtual clock; compared with a reference map after every step; " +
 			"non-trivial = the sequence contains a lookup miss or a clean run; distinct = distinct (miss, clean, length) classes",
 		Assumptions:   []string{"single caller (overlap of lookups and events is C17)", "block events carry the block's true slot"},
 		Units:         c18Units,
